@@ -272,6 +272,34 @@ class Driver:
         backend.record_job_start = record_job_start
         backend.record_job_end = record_job_end
 
+        # ultimate-reduction answers: the TRUE subtree of the replayed call node (every task hash reachable over the
+        # recorded call edges, the Merkle record itself) against the registry hashes the lookup was given
+        orig_check = backend.check_cache
+
+        def check_cache(task_hash, args_hash, eval_hash, execution_id, scheduler_task_hashes, *a, **kw):
+            r = orig_check(task_hash, args_hash, eval_hash, execution_id, scheduler_task_hashes, *a, **kw)
+            try:
+                if r[1] is not None and "ULTIMATE" in str(r[2]):
+                    from redun.backends.db import CallEdge, CallNode
+
+                    seen, todo, hashes = set(), [r[1]], set()
+                    while todo:
+                        h = todo.pop()
+                        if h in seen:
+                            continue
+                        seen.add(h)
+                        node = backend.session.query(CallNode).filter_by(call_hash=h).first()
+                        if node is not None:
+                            hashes.add(node.task_hash)
+                        todo += [c for (c,) in backend.session.query(CallEdge.child_id).filter_by(parent_id=h)]
+                    stale = sorted(hashes - set(scheduler_task_hashes))
+                    d.events.append({"ev": "ult_hit", "call": r[1], "nodes": len(seen), "stale": len(stale)})
+            except Exception as e:  # noqa  (observation must never break the scheduler)
+                d.events.append({"ev": "ult_hit", "call": "?", "nodes": 0, "stale": 0, "obs_error": type(e).__name__})
+            return r
+
+        backend.check_cache = check_cache
+
     # ---- the choice point ---------------------------------------------------------------------
     def observe(self) -> dict:
         s = self.s
